@@ -86,7 +86,9 @@ def convolve_model_dir_monochromatic(model_dir, overwrite=False, max_ram=8,
     # (wavelengths array is sorted in reverse order)
     jlo = n_wav - 1 - (wavelengths[::-1].searchsorted(wav_max) - 1)
     jhi = n_wav - 1 - wavelengths[::-1].searchsorted(wav_min)
-    chunk_size = min(chunk_size, jhi - jlo + 1)
+    # (no wavelength may fall inside the window, in which case there is
+    # nothing to do)
+    chunk_size = max(1, min(chunk_size, jhi - jlo + 1))
 
     # Loop over wavelength chunks
     for jmin in range(jlo, jhi + 1, chunk_size):
